@@ -21,6 +21,24 @@ def liesel_setup():
     return model, iface
 
 
+def int_init_model():
+    """a Gibbs-updated parameter initialised with an integer literal (its stored dtype is int32); the Gibbs draw is a float"""
+    import liesel.model as lsl
+    import tensorflow_probability.substrates.jax.distributions as tfd
+    tau = lsl.Var(1, name="tau")
+    scale = lsl.Var(lsl.Calc(lambda t: jnp.sqrt(t + 1.0), tau), name="scale")
+    mu = lsl.Var(0.3, lsl.Dist(tfd.Normal, loc=0.0, scale=scale), name="mu")
+    mu.parameter = True
+    y = lsl.Var(jnp.array([0.1, 0.7]), lsl.Dist(tfd.Normal, loc=mu, scale=scale), name="y")
+    y.observed = True
+    return lsl.GraphBuilder().add(y).build_model()
+
+
+def gibbs_tau(key, st):
+    r = st["y_value"].value - st["mu_value"].value
+    return {"tau": 0.25 + jnp.mean(r ** 2) + 0.5 * jax.random.uniform(key, ())}
+
+
 def gibbs_fn(key, st):
     r = st["y_value"].value - st["mu_value"].value
     return {"sigma_transformed": 0.5 * jnp.log(jnp.mean(r ** 2) + 0.1) + 0.1 * jax.random.normal(key, ())}
@@ -42,7 +60,14 @@ def make_sequence(kind):
     rec = {}
     if kind.startswith("liesel"):
         model, iface = liesel_setup()
-        if kind == "liesel:RW+Gibbs":
+        param_keys = ["beta_value", "sigma_transformed_value"]
+        if kind == "liesel:Gibbs(int-initialised parameter)+RW":
+            model = int_init_model()
+            iface = gs.LieselInterface(model)
+            ks = [gs.GibbsKernel(["tau"], gibbs_tau), gs.RWKernel(["mu"])]
+            kst = [{}, RWKernelState(0.4)]
+            param_keys = ["tau_value", "mu_value"]
+        elif kind == "liesel:RW+Gibbs":
             ks = [gs.RWKernel(["beta"]), gs.GibbsKernel(["sigma_transformed"], gibbs_fn)]
             kst = [RWKernelState(0.4), {}]
         elif kind == "liesel:IWLS+RW":
@@ -75,7 +100,6 @@ def make_sequence(kind):
             ref_model.update()
             return ref_model.state
         valsof = M.values_of
-        param_keys = ["beta_value", "sigma_transformed_value"]
     else:
         import liesel.goose as gs
         iface = gs.DictInterface(K.lp_ab)
@@ -252,8 +276,8 @@ def obligations(kind, e_seq, e_orc, ks, param_keys, s_free, has_derived):
 
 def main():
     chk = Check("C09")
-    kinds = ["liesel:RW+Gibbs", "liesel:NUTS+MH", "dict:RW+MH", "liesel:Gibbs+RW+RW(ids not sorted)"] if chk.tier == "quick" else \
-        ["liesel:RW+Gibbs", "liesel:IWLS+RW", "liesel:NUTS+MH", "liesel:Gibbs+RW+RW(ids not sorted)", "dict:RW+MH", "dict:NUTS+RW"]
+    kinds = ["liesel:RW+Gibbs", "liesel:NUTS+MH", "dict:RW+MH", "liesel:Gibbs+RW+RW(ids not sorted)", "liesel:Gibbs(int-initialised parameter)+RW"] if chk.tier == "quick" else \
+        ["liesel:RW+Gibbs", "liesel:IWLS+RW", "liesel:NUTS+MH", "liesel:Gibbs+RW+RW(ids not sorted)", "dict:RW+MH", "dict:NUTS+RW", "liesel:Gibbs(int-initialised parameter)+RW"]
     obs = []
     for kind in kinds:
         res = chk.guarded(f"{kind}:trace", f"[{kind}] tracing the kernel sequence", scenario, chk, kind)
